@@ -1,5 +1,7 @@
 //verif:dest internal/server/handlers/zz_verif_c13.go
-//verif:replace (github.com/mimecast/dtail/internal/io/fs.readFile).Start = c13Start
+//verif:replace@C13a (github.com/mimecast/dtail/internal/io/fs.readFile).Start = c13Start
+//verif:replace@C13b (github.com/mimecast/dtail/internal/io/fs.readFile).Start = c13Start
+//verif:replace@C13d (github.com/mimecast/dtail/internal/io/fs.readFile).Start = c13Start
 
 package handlers
 
